@@ -149,6 +149,21 @@ Theorem C13_route_without_constructor_refuted : forall q keep x o0,
   enter_via [] q keep (InObj x o0) = StoredRaw (InObj x o0).
 Proof. exact route_without_constructor_refuted. Qed.
 
+(* ---- field-wise construction (positional / keyword, explicit tzinfo=None included, and the classmethods that end
+   in it): the value is aware, the wall clock is the argument's, naive means UTC, a given offset is kept *)
+Theorem C13_fieldwise_construction_aware : forall x d, dt_of_fields x = Some d ->
+  aware d /\ wall d = wall x /\ (off x = None -> off d = Some 0) /\ (forall z, off x = Some z -> off d = Some z).
+Proof. exact dt_of_fields_aware. Qed.
+(* replace(tzinfo=None) on a value of the field type: aware UTC with the same wall clock PROVIDED the interpreter
+   calls the field type's constructor for the result (GENERATED probe gen_replace_none_bypasses_constructor) ... *)
+Theorem C13_replace_tzinfo_none_partial : forall d, valid d -> gen_replace_none_bypasses_constructor = false ->
+  replace_tzinfo_none gen_replace_none_bypasses_constructor d = Some (coerce (strip_off d))
+  /\ off (coerce (strip_off d)) = Some 0 /\ wall (coerce (strip_off d)) = wall d.
+Proof. intros d Hv ->. exact (replace_none_constructed d Hv). Qed.
+(* ... and FALSE when it does not (CPython <= 3.12 builds the result in C): the result is a naive value of the field type *)
+Theorem C13_replace_tzinfo_none_refuted : forall d, exists r, replace_tzinfo_none true d = Some r /\ off r = None.
+Proof. exact replace_none_bypass_refuted. Qed.
+
 (* ---- instants: days-from-civil and civil-from-days are inverse for ALL proleptic Gregorian dates (any year) *)
 Theorem C13_civil_days_inverse :
   (forall y m d, valid_date y m d = true -> civil_from_days (days_from_civil y m d) = (y, m, d))
